@@ -496,7 +496,7 @@ func (in *Interp) visitInstr(fr *frame, instr ssa.Instruction) continuation {
 		x := fr.get(instr.X)
 		switch x := x.(type) {
 		case Array:
-			fr.set(instr, in.indexRead(x, fr.get(instr.Index)))
+			fr.set(instr, in.indexReadT(x, fr.get(instr.Index), instr.Type()))
 		case string, *SymStr:
 			fr.set(instr, in.indexRead(strBytes(x), fr.get(instr.Index)))
 		default:
@@ -611,18 +611,31 @@ func (in *Interp) indexCheck(idx Value, n int, needConc bool) Value {
 
 // indexRead reads cells[idx], building an ite chain for symbolic idx over scalar cells.
 func (in *Interp) indexRead(cells []Value, idx Value) Value {
+	return in.indexReadT(cells, idx, nil)
+}
+
+// indexReadT: t is the static element type when the caller knows it (it fixes the width of the
+// selection term when every cell is concrete).
+func (in *Interp) indexReadT(cells []Value, idx Value, t types.Type) Value {
 	i := in.indexCheck(idx, len(cells), false)
 	if ci, ok := i.(int); ok {
 		return copyVal(cells[ci])
 	}
 	it := i.(*Term)
-	return in.selectChain(cells, it)
+	return in.selectChainT(cells, it, t)
 }
 
-func (in *Interp) selectChain(cells []Value, it *Term) Value {
+func (in *Interp) selectChain(cells []Value, it *Term) Value { return in.selectChainT(cells, it, nil) }
+
+func (in *Interp) selectChainT(cells []Value, it *Term, t types.Type) Value {
 	// all cells must be integers of same width (concrete or term)
 	w := 0
 	var kd kind = kUint
+	if t != nil {
+		if k, tw := basicOf(t); k == kInt || k == kUint {
+			w, kd = tw, k
+		}
+	}
 	terms := make([]*Term, len(cells))
 	for j, c := range cells {
 		switch c := c.(type) {
@@ -666,7 +679,7 @@ func (in *Interp) unopInstr(fr *frame, instr *ssa.UnOp) Value {
 	switch instr.Op {
 	case token.MUL:
 		if sp, ok := x.(SymPtr); ok {
-			return in.selectChain(sp.cells, sp.idx)
+			return in.selectChainT(sp.cells, sp.idx, instr.Type())
 		}
 		p := x.(*Value)
 		if p == nil {
